@@ -132,6 +132,29 @@ pub fn compare_row(
     true
 }
 
+/// Row equality for GROUP BY keys: unlike a join key, two NULLs in the same
+/// column are the SAME grouping key (SQL puts all NULL keys in one group).
+#[inline]
+pub fn compare_row_nulls_equal(
+    arrays_a: &[ArrayRef],
+    row_a: usize,
+    arrays_b: &[ArrayRef],
+    row_b: usize,
+) -> bool {
+    for (a, b) in arrays_a.iter().zip(arrays_b.iter()) {
+        match (a.is_null(row_a), b.is_null(row_b)) {
+            (true, true) => continue,
+            (true, false) | (false, true) => return false,
+            (false, false) => {
+                if !compare_array_values(a, row_a, b, row_b) {
+                    return false;
+                }
+            }
+        }
+    }
+    true
+}
+
 /// Compare a single value between two arrays at given rows.
 #[inline]
 fn compare_array_values(a: &ArrayRef, row_a: usize, b: &ArrayRef, row_b: usize) -> bool {
